@@ -69,18 +69,16 @@ BUILTIN_EXC_PARENTS = {
 
 
 def exc_is_subclass(cls, parent):
-    if parent in ('BaseException',):
+    """Is exception class `cls` a subclass of `parent`?  Repo exceptions derive directly from Exception."""
+    if parent == 'BaseException':
         return True
     c = cls
-    while c is not None:
+    for _ in range(12):
         if c == parent:
             return True
-        if c in BUILTIN_EXC_PARENTS:
-            c = BUILTIN_EXC_PARENTS[c]
-        else:
-            c = 'Exception' if c != 'Exception' else None
-            if parent == 'Exception':
-                return True
+        if c in ('BaseException', None):
+            return False
+        c = BUILTIN_EXC_PARENTS.get(c, 'Exception' if c != 'Exception' else 'BaseException')
     return False
 
 
